@@ -126,3 +126,43 @@ Theorem trot_name_injective_per_period : forall u md t1 t2,
   (period_key u 1 t1 = period_key u 1 t2 -> t_filename u t1 = t_filename u t2).
 Proof. exact name_period_both. Qed.
 Print Assumptions trot_name_injective_per_period.
+
+(* Working directory.  The process may change directory at any point of a
+   history (GChdir); the path given to init may be absolute or relative (plain
+   name, ./name, sub/dir/name).  The directory the path resolves to AT INIT is
+   part of the configuration: every directory other than that one (and than the
+   ones a later restart resolves the path to, later_dirs) has exactly the
+   contents it had before the history -- no stray log file anywhere. *)
+Theorem rot_files_in_configured_dir : forall fs0 cwd p mb bc ops d,
+  d <> resolve cwd p -> ~ In d (later_dirs _ _ cwd p ops) ->
+  g_dir d (gs_fs r_fs (rg_run code_msg_max_len (rg_start fs0 cwd p mb bc) ops)) = g_dir d fs0.
+Proof. exact (rot_frame code_msg_max_len). Qed.
+Print Assumptions rot_files_in_configured_dir.
+
+(* ... and the configured directory holds exactly the files of the
+   one-directory model run on the writes and restarts of the history (when every
+   restart resolves to the same directory: absolute path, or the process is back
+   in its start directory), so all rot_* theorems above speak about it. *)
+Theorem rot_configured_dir_holds_the_rotation : forall fs0 cwd p mb bc ops,
+  stable _ _ (resolve cwd p) cwd p ops ->
+  let g := rg_run code_msg_max_len (rg_start fs0 cwd p mb bc) ops in
+  gs_dir g = resolve cwd p /\
+  g_dir (resolve cwd p) (gs_fs r_fs g) =
+    r_fs (r_run_log code_msg_max_len (r_init (g_dir (resolve cwd p) fs0) mb bc) (rops_of ops)).
+Proof. exact (rot_project code_msg_max_len). Qed.
+Print Assumptions rot_configured_dir_holds_the_rotation.
+
+Theorem trot_files_in_configured_dir : forall fs0 cwd p clock u md local tz ops d,
+  d <> resolve cwd p -> ~ In d (later_dirs _ _ cwd p ops) ->
+  g_dir d (gs_fs t_fs (tg_run code_msg_max_len (tg_start fs0 cwd p clock u md local tz) ops)) = g_dir d fs0.
+Proof. exact (trot_frame code_msg_max_len). Qed.
+Print Assumptions trot_files_in_configured_dir.
+
+Theorem trot_configured_dir_holds_the_rotation : forall fs0 cwd p clock u md local tz ops,
+  stable _ _ (resolve cwd p) cwd p ops ->
+  let g := tg_run code_msg_max_len (tg_start fs0 cwd p clock u md local tz) ops in
+  gs_dir g = resolve cwd p /\
+  g_dir (resolve cwd p) (gs_fs t_fs g) =
+    t_fs (t_run_log code_msg_max_len (t_init (g_dir (resolve cwd p) fs0) clock u md local tz) (tops_of ops)).
+Proof. exact (trot_project code_msg_max_len). Qed.
+Print Assumptions trot_configured_dir_holds_the_rotation.
